@@ -72,3 +72,17 @@ claim('C12',
                   'hooks; try_working_requests loop invariant with ghost position maps (selection in queue order, the rest keeps '
                   'its order, one START_WORK event per selected order); _start_work_order obtains duration, cost and start hook once '
                   'each and schedules FINISH_WORK after exactly the reported duration; create_work_order returns accepted.')
+
+claim('C18',
+      assumptions=[
+          A2, A4 + ' -- an action does not register/unregister objects on the scheduler that is invoking it',
+          'hand lemma (glue): state i begins at the sum of the durations before it -- induction over the chain "the update event at '
+          't_k schedules exactly one update event at t_k + duration[index]" (machine-checked per step), period of a cyclical '
+          'timetable = total duration',
+          'default_action is an overridable hook; user subclasses are outside the scope (A6)',
+      ],
+      trusted=['A3: dict insertion order / del keeps the order of the others'],
+      explanation='_update_state: index advances / wraps / stops as prescribed, state = timetable[index], one schedule_update '
+                  'record, exactly one invocation (default or override, with scheduler/object/now/new state) per registered object '
+                  'in registration order (loop invariant over dict order + ghost g_ok), then exactly one next update event after '
+                  'the new state\'s duration; register/unregister posts; constructor default is_cyclical=True read from the source.')
